@@ -372,7 +372,7 @@ pub fn c05_panics<const N: usize>() {
         match which {
             0 => { vf::assume(md.n == N && !md.has(k)); vf::reach(3); vf::catch(move || { let _ = mm.insert(Tok::new(k), Tok::new(0)); }) }
             1 => { vf::assume(!md.has(k)); vf::reach(4); vf::catch(move || { let q = BKey::free(k); let _ = &mm[&q]; }) }
-            2 => { vf::assume(md.has(k)); vf::reach(5); vf::catch(move || { let q = BKey::free(k); let _ = mm.get_disjoint_mut([&q, &q]); }) }
+            2 => { vf::assume(md.has(k)); if N > 0 { vf::reach(5); } vf::catch(move || { let q = BKey::free(k); let _ = mm.get_disjoint_mut([&q, &q]); }) }
             _ => {
                 let c = vf::any_usize();
                 expect_panic = c != N;
